@@ -684,8 +684,8 @@ static int32_t utc_load(struct jls_core_s * self, uint16_t signal_id) {
     if (NULL == signal->track_fsr->tmap) {
         return JLS_ERROR_NOT_ENOUGH_MEMORY;
     }
-    int64_t sample_rate = signal_def->sample_rate;
-    int64_t sample_start = -3600 * sample_rate;  // within the last hour
+    // Load every stored entry: an entry left out cannot be reproduced by the conversion.
+    int64_t sample_start = INT64_MIN / 4;
     return jls_core_utc(self, signal_id, sample_start, jls_tmap_add_cbk, signal->track_fsr->tmap);
 }
 
